@@ -15,7 +15,9 @@ import re
 
 import lib_layout as L
 from core import enc_str
-from props.c01 import FLAGS, corner_specs  # CODE VARIANT FLAGS: shared with C01 (see harness/props/c01.py)
+# CODE VARIANT FLAGS: none of its own — shared with C01 (see harness/props/c01.py, which follows props/c08.py, c02.py, c07.py); current
+# value "0,00000000,0000000" = frames variant, text / wrap flags, table flags, all repaired (1 = rich 9.10.0 as found)
+from props.c01 import FLAGS, corner_specs
 
 PROPERTY = "C09"
 
@@ -210,9 +212,11 @@ def run(ctx):
         "zero-width code points, newlines, tabs; spans; justify; no_wrap) for the text measurement; distinct = distinct canonical requests"
     )
     ctx.assumptions += [
-        "console: UTF-8, not legacy Windows, no colour system, tab_size 8",
+        "console: tab_size 8, safe_box on, no_color off; UTF-8 or ASCII-only encoding, legacy Windows on / off and the colour systems None / standard / "
+        "truecolor are all generated and modelled",
         "'render at the reported maximum/minimum fits' is evaluated for values at or above the structural minimum and inside C01's domain "
-        "(see harness/props/c01.py); the correspondence covers every width",
+        "(see harness/props/c01.py; a table whose min_width binds is only compared); the text statements are evaluated for tab-free texts; the "
+        "correspondence covers every width",
     ]
 
 
@@ -239,9 +243,11 @@ MANIFEST = {
     "(thorough) cases: corner trees and seeded random trees (generator of C01 plus casts / measure-less roots) at every available width 0..60 "
     "and beyond, renderings at every reported maximum/minimum, random texts for Text.__rich_measure__ and wrapping at the maximum; the "
     "statements evaluated directly on rich's answers.",
-    "note": "Partial / assumed: render-at-max/min is claimed inside C01's domain (see C01 note) and for values at or above the structural "
-    "minimum, as the property says; a group containing a ProgressBar that is not last is the known finding progressbar-no-newline (F23): its "
-    "measurement is unsound.  `text_at_max_not_wrapped` assumes `\\n` is the only line-break character of the text (str.splitlines, used by "
+    "note": "Variant flags: none of its own; FLAGS is imported from props/c01.py, which follows props/c08.py, c02.py, c07.py — current value "
+    "0,00000000,0000000 (FRAMES_VARIANT 0, TEXT_FLAGS 00000000, TABLE_FLAGS 0000000: all repaired; 1 = rich 9.10.0 as found).  "
+    "Partial / assumed: render-at-max/min is claimed inside C01's domain (see C01 note) and for values at or above the structural "
+    "minimum, as the property says; a group containing a ProgressBar that is not last is the known finding progressbar-no-newline (F23, not "
+    "repaired): its measurement is unsound, and the check prints KNOWN-FINDING lines for it (sites render at measured maximum / minimum).  `text_at_max_not_wrapped` assumes `\\n` is the only line-break character of the text (str.splitlines, used by "
     "the measurement, also breaks at FS/GS/RS/NEL/LS/PS; wrap does not).  Table.__rich_measure__ is modelled here (`tableRichMeasure` of Model/Layout.lean; C07's Model/Table.lean has gained its own "
     "`Table.richMeasure` since, compared per table by ./check C07).  Quirk modelled: an object whose __rich__ returns a str is "
     "measured (0, available), because Measurement.get converts a str before it follows __rich__.  Documented non-claims (outside C09's quantifier): Syntax.__rich_measure__ is one cell short with line numbers + code_width (C17), Pretty.__rich_measure__ is sound since fix db5535b (C16).  Outside the model: styles.  Trusted base as C01.",
